@@ -13,9 +13,9 @@
         (s (spec!Read (select rows (bvadd roff j)) (anon!struct!7bKey_string!3b_Value_bool!7d!Key (select keys koff)))))
   (ite (= f a!nil) false
   (ite (= s a!nil) true
-  (ite (= (spec!CompareSpec f s) #x0000000000000000)
+  (ite (= (spec!Cmp f s) #x0000000000000000)
        (spec!Less rows roff i j keys (bvadd koff #x0000000000000001) (bvsub n #x0000000000000001))
-       (= (spec!CompareSpec f s) (ite (anon!struct!7bKey_string!3b_Value_bool!7d!Value (select keys koff)) #xffffffffffffffff #x0000000000000001))))))))
+       (= (spec!Cmp f s) (ite (anon!struct!7bKey_string!3b_Value_bool!7d!Value (select keys koff)) #xffffffffffffffff #x0000000000000001))))))))
 ; LessOK: every pair of values the evaluation of Less compares is ordered (one scalar kind per key, as the statement assumes)
 (define-fun-rec spec!LessOK ((rows (Array (_ BitVec 64) Any)) (roff (_ BitVec 64)) (i (_ BitVec 64)) (j (_ BitVec 64))
                            (keys (Array (_ BitVec 64) S!anon!struct!7bKey_string!3b_Value_bool!7d)) (koff (_ BitVec 64)) (n (_ BitVec 64))) Bool
@@ -24,5 +24,5 @@
         (s (spec!Read (select rows (bvadd roff j)) (anon!struct!7bKey_string!3b_Value_bool!7d!Key (select keys koff)))))
   (ite (or (= f a!nil) (= s a!nil)) true
   (and (spec!ordered f) (spec!ordered s)
-       (=> (= (spec!CompareSpec f s) #x0000000000000000)
+       (=> (= (spec!Cmp f s) #x0000000000000000)
            (spec!LessOK rows roff i j keys (bvadd koff #x0000000000000001) (bvsub n #x0000000000000001))))))))
